@@ -118,17 +118,33 @@ def exprStep (tmpl : Name) (jg : Bool) (st : St) (e : Expr) : St :=
 def scopeAdd (st : St) (x : Name) : St :=
   { (st.modCur (·.add x)) with locs := st.locs ++ [x] }
 
+/-- `if template_name and not just_globals: seen[template_name].add(None)` -/
+def markSeen (tmpl : Name) (jg : Bool) (st : St) : St :=
+  if tmpl ≠ "" ∧ jg = false then { st with seen := (tmpl, none) :: st.seen } else st
+
+/-- `tags[node.token.value].append(Span(template_name, node.token.start_index))` -/
+def addTag (h : Hdr) (tmpl : Name) (jg : Bool) (st : St) : St :=
+  match h.tag with
+  | some (t, p) => if jg then st else { st with tags := st.tags ++ [(t, tmpl, p)] }
+  | none => st
+
 /-- The part of `_visit` before the `partial_scope()` test. -/
 def hdrStep (h : Hdr) (tmpl : Name) (jg : Bool) (st : St) : St :=
-  let st := if tmpl ≠ "" ∧ jg = false then { st with seen := (tmpl, none) :: st.seen } else st
-  let st := match h.tag with
-    | some (t, p) => if jg then st else { st with tags := st.tags ++ [(t, tmpl, p)] }
-    | none => st
-  let st := h.exprs.foldl (exprStep tmpl jg) st
-  h.tscope.foldl scopeAdd st
+  h.tscope.foldl scopeAdd (h.exprs.foldl (exprStep tmpl jg) (addTag h tmpl jg (markSeen tmpl jg st)))
 
 def partKey (iso : Bool) (name : Name) (argNames : List Name) : Key :=
   if iso then some (name :: argNames) else none
+
+/-- `seen[partial_name].add(partial.key)` -/
+def addSeen (st : St) (p : Name × Key) : St := { st with seen := p :: st.seen }
+/-- `partial_scope = _StaticScope(set(partial.in_scope))`; children are visited with it. -/
+def enterIso (st : St) (inScope : List Name) : St := { st with iso := ⟨inScope, []⟩, inIso := true }
+/-- Back in the caller's activation: its `scope` argument is what it was. -/
+def leaveIso (st old : St) : St := { st with iso := old.iso, inIso := old.inIso }
+/-- `partial_scope = root_scope.push(set(partial.in_scope))`; children are visited with `root_scope`. -/
+def enterShared (st : St) (inScope : List Name) : St := { st with root := st.root.push inScope, inIso := false }
+/-- `partial_scope.pop()` on the root scope; back in the caller's activation. -/
+def leaveShared (st old : St) : St := { st with root := st.root.pop, inIso := old.inIso }
 
 mutual
 def visitNode : Node → Name → Bool → St → St
@@ -143,19 +159,11 @@ def visitNode : Node → Name → Bool → St → St
     let jg' := st.seen.any (·.1 == name)
     if st.seen.contains (name, key) then st
     else
-      let st := { st with seen := (name, key) :: st.seen }
+      let st1 := addSeen st (name, key)
       let tmpl' := if name = "" then tmpl else name
       let inScope := argNames ++ bound.toList
-      let oldIso := st.iso
-      let oldIn := st.inIso
-      if iso then
-        let st := { st with iso := ⟨inScope, []⟩, inIso := true }
-        let st := visitNodes body tmpl' (jg || jg') st
-        { st with iso := oldIso, inIso := oldIn }
-      else
-        let st := { st with root := st.root.push inScope, inIso := false }
-        let st := visitNodes body tmpl' (jg || jg') st
-        { st with root := st.root.pop, inIso := oldIn }
+      if iso then leaveIso (visitNodes body tmpl' (jg || jg') (enterIso st1 inScope)) st1
+      else leaveShared (visitNodes body tmpl' (jg || jg') (enterShared st1 inScope)) st1
 def visitNodes : Nodes → Name → Bool → St → St
   | .nil, _, _, st => st
   | .cons n ns, tmpl, jg, st => visitNodes ns tmpl jg (visitNode n tmpl jg st)
